@@ -11,7 +11,8 @@ run_one() {
   f=$1; name=$(echo "$f" | sed 's#/patch.diff##; s#.*/\([^/]*/[^/]*\)$#\1#; s#/#-#g')
   wt=$OUT/wt-$name
   git -C /repo worktree add -q --detach "$wt" HEAD 2>/dev/null || { echo "TROUBLE $name worktree"; return; }
-  if git -C "$wt" apply "$(readlink -f "$f")" 2>/dev/null; then
+  # strict first; a patch whose context moved (a later fix nearby) is merged three-way; a real conflict is TROUBLE
+  if git -C "$wt" apply "$(readlink -f "$f")" 2>/dev/null || { git -C "$wt" apply --3way "$(readlink -f "$f")" >/dev/null 2>&1 && ! git -C "$wt" diff --name-only --diff-filter=U | grep -q . ; }; then
     res=""
     for P in C13 C12 C02 C16 C14 C09 C01; do
       mkdir -p "$OUT/r-$name"
